@@ -18,6 +18,7 @@ RUNG_SYSTEMS = {
     "g1inc2m7": dict(grace=1, inc=2, max_t=7),
     "lv125m6": dict(levels=[1, 2, 5], max_t=6),
     "g1rf2m5": dict(grace=1, rf=2, max_t=5),
+    "g1rf2.5m7": dict(grace=1, rf=2.5, max_t=7),   # non-integer reduction factor: levels 1, 2, 6 (round(2.5**2) = 6, not round(2*2.5) = 5)
 }
 
 
@@ -155,16 +156,55 @@ def configs(tier, seed):
     return out
 
 
+def levels_lattice(tier):
+    """rung levels of the real scheduler vs the documented arithmetic (round(r_min * eta^k) < max_t; r_min + k*inc) for every
+    point of a finite lattice of (grace_period, reduction_factor incl. non-integer, rung_increment, max_t)"""
+    from syne_tune.optimizer.schedulers import HyperbandScheduler
+    from syne_tune.config_space import uniform
+    from ..core import Coverage
+    cov, viols = Coverage(), []
+    top = 48 if tier == "quick" else 160
+    seen = set()
+    for grace in (1, 2, 3, 4):
+        for kind, par in [("rf", x) for x in (2, 2.25, 2.5, 3, 3.5, 4)] + [("inc", x) for x in (1, 2, 3, 5)]:
+            for max_t in range(grace + 1, top + 1):
+                kw = dict(reduction_factor=par) if kind == "rf" else dict(reduction_factor=None, rung_increment=par)
+                ref = rung_levels(grace=grace, max_t=max_t, **{kind: par})
+                cov.add("evaluations")
+                for typ in ("stopping", "promotion"):
+                    try:
+                        s = HyperbandScheduler({"a": uniform(0, 1)}, searcher="random", type=typ, metric="m", mode="min",
+                                               resource_attr="epoch", max_t=max_t, grace_period=grace, random_seed=0,
+                                               search_options={"debug_log": False}, **kw)
+                        got = [int(x) for x in s.rung_levels]
+                    except AssertionError as e:
+                        got = ("AssertionError", str(e)[:80])
+                    cov.add("transitions")
+                    if got != ref:
+                        key = f"levels|stopping:rung-levels:{kind}={par}" if typ == "stopping" else f"levels|stopping:rung-levels:{kind}={par}:promotion"
+                        if key not in seen:
+                            seen.add(key)
+                            viols.append(Violation(PROP, key, f"grace_period={grace} {kind}={par} max_t={max_t} type={typ}: scheduler uses "
+                                                              f"rung levels {got}, documented arithmetic gives {ref}",
+                                                   {"engine": "levels", "grace": grace, "kind": kind, "par": par, "max_t": max_t, "type": typ}))
+                cov.outcome("levels:" + str(len(ref)))
+    return cov, viols
+
+
 def run(tier, seed):
     res = Result()
     cfgs = configs(tier, seed)
     for cov, viols in pmap(task, cfgs):
         res.cov.merge(cov)
         res.violations.extend(viols)
+    cov, viols = levels_lattice(tier)
+    res.cov.merge(cov)
+    res.violations.extend(viols)
     res.rule = ("BFS over event histories {suggest(bracket), report(t), complete(t)} of the real HyperbandScheduler "
                 "(type stopping / rush_stopping) with digest dedup; per configuration = rung system x mode x brackets x "
                 "shared/per-bracket x metric-rank permutation; oracle = reference quantile rule stepped in lock-step + "
-                "rung-content invariant. distinct_nontrivial = distinct implementation states.")
+                "rung-content invariant. Plus: rung levels of the real scheduler vs the documented arithmetic on a finite lattice of "
+                "(grace_period, reduction_factor incl. non-integer, rung_increment, max_t) (evaluations).")
     res.bounds = {"configs": len(cfgs), "tier": tier}
     res.assumptions = list(env.ASSUMPTIONS) + [
         "bracket sampling owned via scheduler.bracket_distribution (one-hot chosen by explorer)",
@@ -176,6 +216,8 @@ def run(tier, seed):
 
 def replay(data):
     from ..schedx import replay as rp
+    if data.get("engine") == "levels":
+        return [v for v in levels_lattice("thorough")[1] if v.replay["kind"] == data["kind"] and v.replay["par"] == data["par"]]
     cfg = data["cfg"]
     hist = [tuple(e) for e in data["history"]]
     w = build_world(cfg)
